@@ -55,13 +55,13 @@ def build(cell, mode, tag):
     name = f'-DHSIM_BUILD_CELL="{cell_name(cell, mode)}"'
     base = [cell[0], cell[2], cell[1], "-w", "-pthread"] + cell[3]
     if mode == "serial":
-        cmds = [base + [name, inc, "-I" + HERE, os.path.join(HERE, "hsim.cc"), os.path.join(HERE, "ops.cc"), lib, "-o", out]]
+        cmds = [base + [name, inc, "-I" + HERE, os.path.join(HERE, "hsim.cc"), os.path.join(HERE, "early.cc"), os.path.join(HERE, "ops.cc"), lib, "-o", out]]
     else:
         o1, o2 = out + "_ops.o", out + "_lib.o"
         cmds = [base + ["-fsanitize=thread", inc, "-I" + HERE, "-c", os.path.join(HERE, "ops.cc"), "-o", o1],
                 base + ["-fsanitize=thread", inc, "-c", lib, "-o", o2],
                 [cell[0], cell[2], "-O2", "-w", "-pthread", name, "-DHSIM_INSTRUMENTED=1", "-I" + HERE, os.path.join(HERE, "hsim.cc"),
-                 os.path.join(HERE, "tsan_shim.cc"), o1, o2, "-ldl", "-o", out]]
+                 os.path.join(HERE, "early.cc"), os.path.join(HERE, "tsan_shim.cc"), o1, o2, "-ldl", "-o", out]]
     for cmd in cmds:
         r = sh(cmd)
         if r.returncode != 0:
@@ -92,6 +92,8 @@ def schedule_text(f):
     for seg in f["segments"]:
         for c in seg.get("respawn_before", []):
             t.append(f"respawn {c}")
+        if seg.get("phase"):
+            t.append("phase " + seg["phase"][0])
         t.append("seg")
         for c in seg["calls"]:
             t.append(f"call {c['client']} {c['op']} {c['a'][2:]} {c['b'][2:]}" + (f" {c['fail_alloc']}" if c.get("fail_alloc") else ""))
@@ -119,6 +121,8 @@ def describe(f):
         sw = [w for w in seg.get("script", []) if w["from"] != 255 and w["at_yield"] >= 0]
         if seg.get("repeat", 1) > 1:
             calls += f" x{seg['repeat']}"
+        if seg.get("phase"):
+            calls = f"<{seg['phase']}> " + calls
         if seg.get("respawn_before"):
             calls = "restart[" + ",".join(f"c{c}" for c in seg["respawn_before"]) + "] " + calls
         if len(seg["calls"]) > 1:
@@ -156,7 +160,7 @@ def write_evidence(tier, seed, cov, wall, violations, assumptions):
 SUMMED = ["runs", "calls", "forks", "nontrivial_runs", "isolation_checks", "disagreements", "signals_caught", "items_lost",
           "hung_children", "unstable", "fine_executions", "concurrent_segments", "concurrent_calls", "yield_points",
           "preemptions", "baton_handoffs", "long_runs", "very_long_runs", "hot_loop_runs", "crowd_runs", "churn_runs", "planned_respawns", "threads_started",
-          "clock_queries_inside_library_calls", "simulated_ns", "allocations_inside_library_calls", "allocation_failures_injected", "plans_with_allocations", "fault_injecting_executions",
+          "lifecycle_probes", "early_calls", "late_calls", "clock_queries_inside_library_calls", "simulated_ns", "allocations_inside_library_calls", "allocation_failures_injected", "plans_with_allocations", "fault_injecting_executions",
           "access_records", "nonstack_writes_observed", "conflicting_call_pairs", "plans_with_conflicts", "directed_executions"]
 
 
@@ -255,6 +259,7 @@ def run_check(tier, seed):
         rec = dict(property=PROPERTY,
                    what=("run-time result of the victim call depends on " +
                          ("where it (or a co-running call) is preempted while another caller is inside the library" if f["mode"] == "fine"
+                          else "the phase of the process life-cycle in which the library is called (before its initialisers / after its destructors)" if f["mode"] == "lifecycle"
                           else "an allocation failure injected into an earlier or the same call (it returned normally, with other bits)" if f["mode"] == "fault"
                           else "the calls made before it")),
                    verif_seed=seed, replay_cmd=f"python3 sim/check.py --replay {os.path.relpath(path, VERIF)}", **f)
@@ -324,6 +329,9 @@ def run_check(tier, seed):
         "synchronous_signals_caught_identically": total["signals_caught"],
         "items_lost_to_child_death": total["items_lost"],
         "hung_children": total["hung_children"],
+        "process_life_cycle": {"probes": total["lifecycle_probes"], "calls_before_library_initialisers": total["early_calls"],
+                               "calls_after_library_destructors": total["late_calls"],
+                               "how": "the harness binary re-executes itself; sim/early.cc (linked before /repo's fixed_math.cc) calls from a global constructor and destructor"},
         "fault_kinds_injected": {"allocation_failure_inside_call": total["allocation_failures_injected"]},
         "fault_injection": {"allocation_requests_observed_inside_library_calls": total["allocations_inside_library_calls"],
                             "plans_in_which_the_library_allocated": total["plans_with_allocations"],
